@@ -1211,6 +1211,6 @@ func main() {
 		}
 		addOp(kind, in, -1, -1)
 	}
-	out.Extra["rule"] = "operations = Create / Create(slice) / CreateInBatches / Save (existing row, key-less, preset key of a missing row) / Updates / Delete (no Select, Select(clause.Associations), Select of a subset of Pets, Profile, Languages, Toys), optionally FullSaveAssociations, on generated record graphs (User with belongs-to Company, has-one Profile, 0-3 has-many Pets each with 0-2 polymorphic Toys, 0-3 many-to-many Languages new or existing, 0-2 polymorphic Toys) over a seeded database of 0-2 such users; every operation is run fault-free, then once per driver-operation index (BEGIN, every INSERT/UPDATE/DELETE/SELECT, COMMIT) with that operation failing and once per hook invocation with that hook returning an error, each from the same database state; one case per run; distinct = distinct (operation kind, options, event sequence, fault position); non-trivial = the operation issues >= 4 driver operations and >= 2 hook invocations. Save of a preset key matching no row with associations + a fault is the known finding, kept out of the generated stream and replayed from corpus/C05."
+	out.Extra["rule"] = "operations = the write forms of gorm (Create of struct / slice / slice of pointers / map / slice of maps / by value, CreateInBatches, Session{CreateBatchSize}, Save of struct (existing row, key-less, preset key of a missing row) and of slices, Updates / Update / UpdateColumn(s) / map updates / slice-model updates / updates of the associated tables, Delete by value / Where / inline key / Model+value, soft and Unscoped, with Select-ed (nested) associations, RETURNING) with options (FullSaveAssociations, Select / Omit of associations and columns, shared association values, Scopes, dialect with / without RETURNING, forward LastInsertId) on generated record graphs (belongs-to by pointer / by value / self-referencing, has-one by pointer / by value / polymorphic, has-many of values / pointers with polymorphic children, many-to-many new or existing; tracked time columns, default values, soft delete) over a seeded database of 0-2 users and a generated history of the handle; a fixed menu of ~60 forms first, then the random stream; every operation is run fault-free, then once per driver-operation index (BEGIN, every statement, COMMIT) with that operation failing and once per hook invocation with that hook returning an error, each from the same database state; one case per run; operations that fail by themselves are spec-only cases; distinct = distinct (history, operation kind, options, event sequence, fault position); non-trivial = the operation issues >= 4 driver operations and >= 2 hook invocations. Save of a preset key matching no row with associations + a fault is the known finding, kept out of the generated stream and replayed from corpus/C05."
 	lib.Must(out.Flush())
 }
